@@ -60,6 +60,8 @@ func runJS(c *Ctx, s *Sink) {
 			s.Pass(nil, key, fd.Pos(), "the object extent is delimited by a JSON decoder")
 			return
 		}
+		// the byte scanner may live in a helper of the package (extracted loop): analyse it there
+		fd = findScanner(c, p, fd)
 		// (B) toggle statements X = !X
 		var toggles []*ast.AssignStmt
 		var stack []ast.Node
@@ -229,6 +231,7 @@ func runJSA(c *Ctx, s *Sink) {
 		s.Pass(nil, key, fd.Pos(), "the object extent is delimited by a JSON decoder")
 		return
 	}
+	fd = findScanner(c, p, fd)
 	var loop *ast.ForStmt
 	ast.Inspect(fd.Body, func(n ast.Node) bool {
 		if f, ok := n.(*ast.ForStmt); ok && loop == nil {
@@ -360,4 +363,53 @@ func runJSA(c *Ctx, s *Sink) {
 	} else {
 		s.Pass(nil, key, loop.Pos(), fmt.Sprintf("%d transitions (flags x byte classes) agree with the JSON string automaton", n))
 	}
+}
+
+// findScanner returns fd when it contains an in-string toggle (X = !X), otherwise the first function of
+// the same package called from it (two levels) that contains one; fd when none does.
+func findScanner(c *Ctx, p *packages.Package, fd *ast.FuncDecl) *ast.FuncDecl {
+	info := p.TypesInfo
+	hasToggle := func(d *ast.FuncDecl) bool {
+		t := false
+		ast.Inspect(d.Body, func(n ast.Node) bool {
+			if as, ok := n.(*ast.AssignStmt); ok && len(as.Lhs) == 1 && len(as.Rhs) == 1 {
+				if u, ok := ast.Unparen(as.Rhs[0]).(*ast.UnaryExpr); ok && u.Op == token.NOT && rootObj(info, u.X) != nil && rootObj(info, u.X) == rootObj(info, as.Lhs[0]) {
+					t = true
+				}
+			}
+			return true
+		})
+		return t
+	}
+	if hasToggle(fd) {
+		return fd
+	}
+	level := []*ast.FuncDecl{fd}
+	seen := map[*ast.FuncDecl]bool{fd: true}
+	for depth := 0; depth < 2; depth++ {
+		var next []*ast.FuncDecl
+		for _, d := range level {
+			var found *ast.FuncDecl
+			ast.Inspect(d.Body, func(n ast.Node) bool {
+				if call, ok := n.(*ast.CallExpr); ok && found == nil {
+					if f := callee(info, call); f != nil && f.Pkg() == p.Types {
+						if cd, _ := c.DeclOf(f); cd != nil && cd.Body != nil && !seen[cd] {
+							seen[cd] = true
+							if hasToggle(cd) {
+								found = cd
+							} else {
+								next = append(next, cd)
+							}
+						}
+					}
+				}
+				return true
+			})
+			if found != nil {
+				return found
+			}
+		}
+		level = next
+	}
+	return fd
 }
